@@ -149,7 +149,7 @@ def run(ctx: Ctx, driver: Driver):
                 vouts.append(canon_value(fmt, val["value"]))
                 vlines.append(f"bc.val {fmt if fmt != 'data' else 'other'} {hx(h[4].ljust(8, bytes(1)))}")
             else:
-                silent_ok = (h[0] == "G" and h[3] >= 900 and before < h[1] < before + 100 and ((h[2] if h[2] is not None else h[1]) & 0xFFFF) == h[1])
+                silent_ok = with_key and (h[0] == "G" and h[3] >= 900 and before < h[1] < before + 100 and ((h[2] if h[2] is not None else h[1]) & 0xFFFF) == h[1])
                 if silent_ok:
                     # authentic and fresh, but for an instance id the cached database does not know: the state number must advance
                     # (otherwise an older genuine notification stays acceptable), nobody is called
